@@ -73,7 +73,7 @@ func runC11(c *harness.Ctx) {
 		R.DistinctS("C11", l.Call.Func, sideName(l), fmt.Sprint(len(l.Call.Args)), cls, e)
 	}
 	r := c.Rand("c11")
-	walks := c.Scale(60, 1500)
+	walks := c.Scale(200, 1500)
 	for i := 0; i < walks; i++ {
 		w := NewWalk(r.Fork(uint64(i)), R, WalkOpts{Steps: c.Scale(150, 300), Hostile: 75, OnLeg: onLeg}, "C11")
 		w.U.N.MeasureAlloc = true
@@ -222,7 +222,7 @@ func (t *twin) replay(l *node.Leg, inGoroutine bool) (*node.Leg, string) {
 func runC13(c *harness.Ctx) {
 	R := c.R
 	r := c.Rand("c13")
-	walks := c.Scale(14, 200)
+	walks := c.Scale(50, 300)
 	if c.Race {
 		walks = c.Scale(4, 30)
 	}
@@ -507,7 +507,7 @@ func enumOps() []enumOp {
 func runC15(c *harness.Ctx) {
 	R := c.R
 	r := c.Rand("c15")
-	walks := c.Scale(10, 150)
+	walks := c.Scale(40, 200)
 	for i := 0; i < walks; i++ {
 		w := NewWalk(r.Fork(uint64(i)), R, WalkOpts{Steps: c.Scale(200, 500), Hostile: 12, NoSysDest: true}, "C15")
 		w.Run()
